@@ -5,6 +5,7 @@ CONSTANTS
   Bundles <- NoBundle
   Ctxs <- Wide
   Reqs <- FullReq
+  Calls <- OneCall
   Tries <- One
   Hists <- NoHist
   BackoffCfgs <- BoCfgs
